@@ -16,9 +16,17 @@ import time
 
 VERIF = os.path.dirname(os.path.dirname(os.path.abspath(__file__)))
 SRC = os.environ.get("PINT_SRC", "/repo")
-COQ = os.path.join(VERIF, "coq")
 BUILD = os.path.join(VERIF, ".build")
-WORK = os.path.join(VERIF, ".work")
+_SRC_TAG = hashlib.md5(SRC.encode()).hexdigest()[:8]
+if SRC == "/repo":
+    COQ = os.path.join(VERIF, "coq")
+    WORK = os.path.join(VERIF, ".work")
+else:
+    # mutant / scratch-tree testing: never touch the main Coq tree, work dir or evidence
+    COQ = os.path.join(BUILD, "coq-" + _SRC_TAG)
+    WORK = os.path.join(BUILD, "work-" + _SRC_TAG)
+EVID = os.path.join(VERIF, "evidence") if SRC == "/repo" else os.path.join(BUILD, "evidence-" + _SRC_TAG)
+REPLAYS = os.path.join(VERIF, "replays") if SRC == "/repo" else os.path.join(BUILD, "replays-" + _SRC_TAG)
 NPROC = os.cpu_count() or 4
 
 GOENV = dict(os.environ)
@@ -91,18 +99,64 @@ def gen_coq_project():
             raise RuntimeError("coq_makefile failed: " + out)
 
 
-def grep_forbidden():
-    """Returns list of 'file:line: text' with forbidden vernacular (comments stripped)."""
-    bad = []
-    for rel in coq_sources():
+def _strip_comments(txt):
+    out = []
+    depth = 0
+    i = 0
+    n = len(txt)
+    instr = False
+    while i < n:
+        c = txt[i]
+        if depth == 0 and c == '"':
+            instr = not instr
+            out.append(c)
+            i += 1
+            continue
+        if not instr and txt.startswith("(*", i):
+            depth += 1
+            i += 2
+            continue
+        if not instr and depth > 0 and txt.startswith("*)", i):
+            depth -= 1
+            i += 2
+            continue
+        if depth == 0:
+            out.append(c)
+        elif c == "\n":
+            out.append(c)
+        i += 1
+    return "".join(out)
+
+
+def dep_closure(targets):
+    """.v files (relative to coq/) reachable from the given .vo targets through PintV imports."""
+    todo = [t[:-1] if t.endswith(".vo") else t for t in targets if t != "all"]
+    if "all" in targets:
+        return coq_sources()
+    seen = set()
+    while todo:
+        rel = todo.pop()
+        if rel in seen or not os.path.exists(os.path.join(COQ, rel)):
+            continue
+        seen.add(rel)
         with open(os.path.join(COQ, rel)) as f:
-            txt = f.read()
-        # strip comments (non-nested approximation handles nesting by loop)
-        prev = None
-        while prev != txt:
-            prev = txt
-            txt = re.sub(r"\(\*[^*(]*(?:\*(?!\))[^*(]*|\((?!\*)[^*(]*)*\*\)",
-                         lambda m: "\n" * m.group(0).count("\n"), txt)
+            txt = _strip_comments(f.read())
+        for m in re.finditer(r"From\s+PintV\s+Require\s+(?:Import|Export)?\s*([^.]*(?:\.[A-Za-z_][^.\s]*)*[^.]*)\.\s", txt):
+            for name in m.group(1).split():
+                todo.append(name.replace(".", "/") + ".v")
+        for m in re.finditer(r"Require\s+(?:Import|Export)?\s*((?:PintV\.[\w.]+\s*)+)\.", txt):
+            for name in m.group(1).split():
+                todo.append(name[len("PintV."):].replace(".", "/") + ".v")
+    return sorted(seen)
+
+
+def grep_forbidden(files=None):
+    """Returns list of 'file:line: text' with forbidden vernacular (comments and strings stripped)."""
+    bad = []
+    for rel in (files if files is not None else coq_sources()):
+        with open(os.path.join(COQ, rel)) as f:
+            txt = _strip_comments(f.read())
+        txt = re.sub(r'"(?:[^"]|"")*"', '""', txt)
         for i, line in enumerate(txt.split("\n"), 1):
             if FORBIDDEN.search(line):
                 bad.append("%s:%d: %s" % (rel, i, line.strip()))
@@ -118,8 +172,13 @@ class Ctx:
         self.work = os.path.join(WORK, prop)
         shutil.rmtree(self.work, ignore_errors=True)
         os.makedirs(self.work, exist_ok=True)
-        os.makedirs(os.path.join(VERIF, "evidence"), exist_ok=True)
-        os.makedirs(os.path.join(VERIF, "replays", prop), exist_ok=True)
+        os.makedirs(EVID, exist_ok=True)
+        os.makedirs(os.path.join(REPLAYS, prop), exist_ok=True)
+        if SRC != "/repo":
+            os.makedirs(COQ, exist_ok=True)
+            with Lock("coq"):
+                sh(["rsync", "-a", "--delete", "--exclude", "Makefile*", "--exclude", ".Makefile.d", "--exclude", "_CoqProject",
+                    os.path.join(VERIF, "coq") + "/", COQ + "/"])
         self.obligations = []      # list of dicts {name, file, ok, assumptions}
         self.broken = []           # list of strings describing broken obligations/correspondence
         self.violations = []       # list of dicts (concrete failing inputs)
@@ -137,27 +196,35 @@ class Ctx:
 
     # ------------------------------------------------------------- translator
     def translator(self):
-        """Regenerate coq/Gen/Tables.v from the current source tree."""
+        """Regenerate coq/Gen/Tables.v (core tables) and, when translator/ext_<prop>.go exists,
+        coq/Gen/<prop>.v from the current source tree.  The translator fails closed."""
+        ok = self._translate("core", "Tables.v")
+        if os.path.exists(os.path.join(VERIF, "translator", "ext_%s.go" % self.prop)):
+            ok = self._translate("ext_" + self.prop, self.prop + ".v") and ok
+        return ok
+
+    def _translate(self, tag, outname):
         with Lock("translator"):
-            binp = os.path.join(BUILD, "translator")
-            srcs = [os.path.join(VERIF, "translator", f) for f in os.listdir(os.path.join(VERIF, "translator"))]
+            tdir = os.path.join(VERIF, "translator")
+            binp = os.path.join(BUILD, "translator-" + tag)
+            srcs = [os.path.join(tdir, f) for f in os.listdir(tdir)]
             newest = max(os.path.getmtime(s) for s in srcs)
             if not os.path.exists(binp) or os.path.getmtime(binp) < newest:
-                rc, out = sh(["go", "build", "-o", binp, "."], cwd=os.path.join(VERIF, "translator"),
+                rc, out = sh(["go", "build", "-tags", tag, "-o", binp, "."], cwd=tdir,
                              env=dict(GOENV, GOFLAGS="", GO111MODULE="on"), timeout=600)
                 if rc != 0:
                     raise RuntimeError("translator build failed:\n" + out)
-            rc, out = sh([binp, "-src", SRC, "-out", os.path.join(self.work, "Tables.v"),
-                          "-json", os.path.join(BUILD, "Tables.json")], timeout=120)
+            tmp = os.path.join(self.work, outname)
+            rc, out = sh([binp, "-src", SRC, "-out", tmp, "-json", os.path.join(BUILD, outname + ".json")], timeout=120)
             if rc != 0:
-                self.broken.append("translator: cannot extract tables from the current source: " + out.strip()[-2000:])
+                self.broken.append("translator(%s): cannot extract tables from the current source: %s" % (tag, out.strip()[-2000:]))
                 self.log("translator FAILED:", out.strip()[-2000:])
                 return False
-            with open(os.path.join(self.work, "Tables.v")) as f:
+            with open(tmp) as f:
                 content = f.read()
             with Lock("coq"):
-                if write_if_changed(os.path.join(COQ, "Gen", "Tables.v"), content):
-                    self.log("translator: Gen/Tables.v changed")
+                if write_if_changed(os.path.join(COQ, "Gen", outname), content):
+                    self.log("translator: Gen/%s changed" % outname)
         return True
 
     # -------------------------------------------------------------------- coq
@@ -165,7 +232,7 @@ class Ctx:
         """Build .vo targets (relative to coq/). Returns True when all built."""
         with Lock("coq"):
             gen_coq_project()
-            bad = grep_forbidden()
+            bad = grep_forbidden(dep_closure(targets))
             if bad:
                 self.broken.append("forbidden vernacular in development: " + "; ".join(bad[:5]))
                 return False
@@ -240,31 +307,45 @@ class Ctx:
 
     # ---------------------------------------------------------------- harness
     def build_harness(self):
-        """Build pint and pint-verif from SRC's working tree (overlay, tag verif)."""
-        with Lock("gobuild-" + hashlib.md5(SRC.encode()).hexdigest()[:8]):
-            hdir = os.path.join(VERIF, "harness")
+        """Build pint and this property's pint-verif-<prop> from SRC's working tree (overlay, tag verif).
+
+        harness/common/*.go + harness/<prop>/*.go form package main at cmd/pint-verif-<prop>;
+        harness/<prop>/export_<pkg>.go (use __ for / in pkg) is injected as internal/<pkg>/zz_verif_export_<prop>.go."""
+        tag = hashlib.md5(SRC.encode()).hexdigest()[:8]
+        with Lock("gobuild-" + tag):
             repl = {}
-            for f in sorted(os.listdir(hdir)):
-                if not f.endswith(".go"):
+            cmddir = os.path.join(SRC, "cmd", "pint-verif-" + self.prop.lower())
+            dirs = ["common", self.prop]
+            uses = os.path.join(VERIF, "harness", self.prop, "uses.txt")
+            if os.path.exists(uses):
+                # extra shared harness directories (harness/<name>/), one per line
+                dirs[1:1] = [l.strip() for l in open(uses) if l.strip() and not l.startswith("#")]
+            for d in dirs:
+                hdir = os.path.join(VERIF, "harness", d)
+                if not os.path.isdir(hdir):
                     continue
-                m = re.match(r"export_(\w+?)\.go$", f)
-                if m:
-                    pkg = m.group(1).replace("__", "/")
-                    repl[os.path.join(SRC, "internal", pkg, "zz_verif_export.go")] = os.path.join(hdir, f)
-                else:
-                    repl[os.path.join(SRC, "cmd", "pint-verif", f)] = os.path.join(hdir, f)
-            tag = hashlib.md5(SRC.encode()).hexdigest()[:8]
-            ov = os.path.join(BUILD, "overlay-%s.json" % tag)
+                for f in sorted(os.listdir(hdir)):
+                    if not f.endswith(".go"):
+                        continue
+                    m = re.match(r"export_(\w+?)\.go$", f)
+                    if m:
+                        pkg = m.group(1).replace("__", "/")
+                        repl[os.path.join(SRC, "internal", pkg, "zz_verif_export_%s.go" % d.lower())] = os.path.join(hdir, f)
+                    else:
+                        repl[os.path.join(cmddir, f)] = os.path.join(hdir, f)
+            ov = os.path.join(BUILD, "overlay-%s-%s.json" % (self.prop, tag))
             with open(ov, "w") as f:
                 json.dump({"Replace": repl}, f, indent=1)
             self.pint = os.path.join(BUILD, "pint-%s" % tag)
-            self.pv = os.path.join(BUILD, "pint-verif-%s" % tag)
+            self.pv = os.path.join(BUILD, "pint-verif-%s-%s" % (self.prop, tag))
             t = time.time()
             rc, out = sh(["go", "build", "-o", self.pint, "./cmd/pint"], cwd=SRC, env=GOENV, timeout=1200)
             if rc != 0:
                 self.broken.append("pint does not build from the current tree: " + out[-1500:])
                 return False
-            rc, out = sh(["go", "build", "-tags", "verif", "-overlay", ov, "-o", self.pv, "./cmd/pint-verif"],
+            if not os.path.isdir(os.path.join(VERIF, "harness", self.prop)):
+                return True
+            rc, out = sh(["go", "build", "-tags", "verif", "-overlay", ov, "-o", self.pv, "./cmd/pint-verif-" + self.prop.lower()],
                          cwd=SRC, env=GOENV, timeout=1200)
             self.log("go build: %.1fs" % (time.time() - t))
             if rc != 0:
@@ -283,12 +364,18 @@ class Ctx:
 
     # ------------------------------------------------------------ known finds
     def known_findings(self):
-        try:
-            with open(os.path.join(VERIF, "known_findings.json")) as f:
-                allk = json.load(f)
-        except FileNotFoundError:
-            return []
-        return [k for k in allk.get("findings", []) if k.get("property") == self.prop and k.get("status") == "open"]
+        allk = []
+        paths = [os.path.join(VERIF, "known_findings.json")]
+        kd = os.path.join(VERIF, "known_findings.d")
+        if os.path.isdir(kd):
+            paths += [os.path.join(kd, f) for f in sorted(os.listdir(kd)) if f.endswith(".json")]
+        for pth in paths:
+            try:
+                with open(pth) as f:
+                    allk += json.load(f).get("findings", [])
+            except FileNotFoundError:
+                pass
+        return [k for k in allk if k.get("property") == self.prop and k.get("status") == "open"]
 
     # ---------------------------------------------------------------- verdict
     def add_violation(self, what, replay):
@@ -297,7 +384,7 @@ class Ctx:
     def finish(self, level="proof", rule="", samples=None, evaluations=0, distinct_nontrivial=0,
                checker_cmd="", trusted_base=None, extra=None):
         wall = time.time() - self.t0
-        rdir = os.path.join(VERIF, "replays", self.prop)
+        rdir = os.path.join(REPLAYS, self.prop)
         lines = []
         rc = 0
         nviol = 0
@@ -335,7 +422,7 @@ class Ctx:
         ev = {"property_id": self.prop, "tier": self.tier, "seed": self.seed, "level": level,
               "coverage": cov, "assumptions": self.assumptions, "wall_s": round(wall, 2), "violations": nviol,
               "source_tree": SRC}
-        with open(os.path.join(VERIF, "evidence", self.prop + ".json"), "w") as f:
+        with open(os.path.join(EVID, self.prop + ".json"), "w") as f:
             json.dump(ev, f, indent=1, default=str)
         for l in lines:
             print(l, flush=True)
